@@ -155,6 +155,11 @@ class Modular:
         if not self._pre_R(vc, name, a):
             raise pyvc.Unsupported(f"{name}: operands violate R at the call site")
         TL, TR = a[0][0], a[1][0]
+        if klass(TL) == "int" and klass(TR) == "char" and op in ("eq", "neq"):
+            c = L1.CharIntEq(op, False)
+            res = self._fresh(vc, bool, op)
+            self._assume(vc, c, (TL, TR), dict(l=a[0], r=a[1]), res, name + ".char-int")
+            return res
         if not (klass(TL) == "int" and klass(TR) == "int"):
             vc.log.append(("contract", name + ".cross-class", f"{tname(TL)},{tname(TR)}"))
             raise TypeErrorException(TR, QintImp)
@@ -222,6 +227,13 @@ class Modular:
         if owner is Qbool and not (TL is bool and TR is bool):
             # Qbool.eq is also used bit by bit for tuples: operands are (bool, formula)
             raise pyvc.Unsupported("Qbool.eq on non-bool operands")
+        if owner is Qchar and TL is Qchar and klass(TR) == "int":
+            if not self._pre_R(vc, name, a):
+                raise pyvc.Unsupported(f"{name}: operands violate R at the call site")
+            c = L1.CharIntEq(o, True)
+            res = self._fresh(vc, bool, o)
+            self._assume(vc, c, (TL, TR), dict(l=a[0], r=a[1]), res, name + ".char-int")
+            return res
         if owner is Qchar and not (TL is Qchar and TR is Qchar):
             vc.log.append(("contract", name + ".cross-class", f"{tname(TL)},{tname(TR)}"))
             raise TypeErrorException(TR, Qchar)
@@ -269,6 +281,8 @@ def ref_compare(op, TL, TR):
         return (L1.QfixedCmp(m), (TL, TR))
     if kl == "char" and kr == "char":
         return (L1.SameWidthEq(Qchar, m, Qchar), (Qchar, Qchar)) if m in ("eq", "neq") else REJECT
+    if {kl, kr} == {"char", "int"} and m in ("eq", "neq"):
+        return (L1.CharIntEq(m, kl == "char"), (TL, TR))      # ord(c) == n / n == ord(c): ord is rewritten away
     return REJECT
 
 
@@ -411,8 +425,63 @@ class CompareSk(Skeleton):
             return REJECT
         c, sh = ref
         a, b = self.var("a", TL), self.var("b", TR)
-        return lambda v: c.post(sh, dict(l=a, r=b), v)
+        f = lambda v: c.post(sh, dict(l=a, r=b), v)   # noqa
+        if klass(TL) == "int" and klass(TR) == "char":
+            return ("may-reject", f)     # `48 == ord(c)`: the library refuses an integer on the left of a char; rejection is allowed
+        return f
 
+
+
+class TupleCompareSk(Skeleton):
+    """Compare(Eq / NotEq) of two tuple-typed variables of the same element types: equal iff every bit agrees; != is its negation.
+    Other comparison operators and different element types are rejected."""
+
+    def __init__(self, op):
+        self.op = op
+        self.name = f"translate_expression.Compare.{op}.tuple"
+
+    def shapes(self, tier):
+        base = [bool, QINT_TYPES[0], QINT_TYPES[1]]
+        out = [((a, b), (a, b)) for a in base for b in base] + [((bool, QINT_TYPES[0], bool), (bool, QINT_TYPES[0], bool))]
+        out += [((bool, QINT_TYPES[0]), (QINT_TYPES[0], bool)), ((bool, bool), (bool, bool, bool))]
+        return out
+
+    def shape_str(self, shape):
+        return "(" + "+".join(tname(t) for t in shape[0]) + "),(" + "+".join(tname(t) for t in shape[1]) + ")"
+
+    def vartypes(self, shape):
+        return {}
+
+    def _names(self, base, ts):
+        out = []
+        for i, t in enumerate(ts):
+            out += [f"{base}.{i}"] if t is bool else [f"{base}.{i}.{k}" for k in range(t.BIT_SIZE)]
+        return out
+
+    def instantiate(self, shape, vc):
+        ta, tb = shape
+        env = Env()
+        na, nb = self._names("a", ta), self._names("b", tb)
+        env.bind(Arg("a", typing.Tuple[tuple(ta)], na))
+        env.bind(Arg("b", typing.Tuple[tuple(tb)], nb))
+        leaves = {n: z3.Bool(n) for n in na + nb}
+        ctx = dict(leaves=leaves, vt={}, env=env, env_snapshot=[(b.name, b.ttype, list(b.bitvec)) for b in env.bindings])
+        return translate_expression, [self.node(shape), env], {}, ctx
+
+    def node(self, shape):
+        return _parse(f"a {PYOP[self.op]} b")
+
+    def expect(self, shape, ctx):
+        ta, tb = shape
+        if ta != tb or self.op not in ("Eq", "NotEq"):
+            return REJECT
+        na, nb = self._names("a", ta), self._names("b", tb)
+        eq = z3.And(*[z3.Bool(x) == z3.Bool(y) for x, y in zip(na, nb)])
+        g = eq if self.op == "Eq" else z3.Not(eq)
+        return lambda v: [Clause("R", R(v, bool), "structural"), Clause("value", den(v[1]) == g if R(v, bool) else False)]
+
+    def describe_inputs(self, shape, ctx, vals):
+        return dict(source=ast.unparse(self.node(shape)), **vals)
 
 
 class ConstOperandSk(Skeleton):
@@ -858,6 +927,7 @@ def all_contracts():
         cs.append(ConstOperandSk(op, "right"))
         if op not in ("Mod", "LShift", "RShift"):
             cs.append(ConstOperandSk(op, "left"))
+    cs += [TupleCompareSk("Eq"), TupleCompareSk("NotEq"), TupleCompareSk("Lt")]
     cs += [BoolOpSk("And"), BoolOpSk("Or"), UnarySk("Not"), UnarySk("Invert"), UnarySk("USub"), IfExpSk(), NameSk(), ConstantSk(),
            TupleSk(), SubscriptSk(), CastCallSk()]
     return cs
